@@ -55,10 +55,18 @@ def extract(repo, o):
     if len(ret) != 1:
         raise ValueError("enumerate_changes: expected a single return")
     chain, e = [], ret[0].value
-    while isinstance(e, ast.Call) and isinstance(e.func, ast.Attribute):
-        chain.append(e.func.attr + "(" + ", ".join([ast.unparse(a) for a in e.args] +
-                                                  [f"{k.arg}={ast.unparse(k.value)}" for k in e.keywords]) + ")")
-        e = e.func.value
+    cmp_method = {ast.NotEq: "ne", ast.Eq: "eq", ast.Gt: "gt", ast.GtE: "ge", ast.Lt: "lt", ast.LtE: "le"}
+    while True:
+        if isinstance(e, ast.Call) and isinstance(e.func, ast.Attribute):
+            chain.append(e.func.attr + "(" + ", ".join([ast.unparse(a) for a in e.args] +
+                                                      [f"{k.arg}={ast.unparse(k.value)}" for k in e.keywords]) + ")")
+            e = e.func.value
+        elif isinstance(e, ast.Compare) and len(e.ops) == 1 and type(e.ops[0]) in cmp_method:
+            # `x != 0` is read as `x.ne(0)` (the operator spelling of the same pandas method)
+            chain.append(cmp_method[type(e.ops[0])] + "(" + ast.unparse(e.comparators[0]) + ")")
+            e = e.left
+        else:
+            break
     chain.append(ast.unparse(e))
     o.defn("ENUM_CHANGES_CHAIN", "List String", _strs(reversed(chain)),
            "enumerate_changes: the receiver and the method chain it returns")
